@@ -134,10 +134,36 @@ fn build_sweeps(quick: bool) -> Vec<Sweep> {
         }
         let scale = (1u64 << p) as f64;
         let pts: Vec<(Vec<i128>, f64)> = xs.iter().map(|x| (vec![*x as i128], (*x as f64 / scale).exp() * scale)).collect();
-        out.push(Sweep { name: "TaylorExponent", op: CustomOperation::new(TaylorExponent { taylor_terms: 5, fixed_precision_points: p }),
-            st_unsigned: false, points: pts.clone(), precision_units: scale, params: format!("terms=5,points={}", p), with_initial: false });
         out.push(Sweep { name: "ApproxExponent", op: CustomOperation::new(ApproxExponent { precision: p }),
             st_unsigned: false, points: pts, precision_units: scale, params: format!("precision={}", p), with_initial: false });
+    }
+    // TaylorExponent: the source states the result is a 31-bit fixed-point number, so the domain
+    // extends on the positive side up to x/ln2 < 31 - p (p = 10: x < 14.55), on the negative side
+    // the operation returns 0 below -10
+    for p in [10u64, 12] {
+        let scale = (1u64 << p) as f64;
+        let hi = ((31 - p) as f64 * std::f64::consts::LN_2 * scale * 0.995) as i64;
+        let lo = -12 * (1i64 << p);
+        let st = stride((hi - lo) as u64, 8192) as i64;
+        let mut xs = vec![];
+        let mut x = lo;
+        while x <= hi {
+            xs.push(x);
+            x += if x.abs() < 64 || hi - x < 64 { 1 } else { st };
+        }
+        // both sides of every power-of-two boundary of x/ln2 (where one more integer bit is used)
+        for k in 0..(31 - p) {
+            let b = (k as f64 * std::f64::consts::LN_2 * scale) as i64;
+            for e in -3i64..=3 {
+                if b + e <= hi {
+                    xs.push(b + e);
+                    xs.push(-(b + e));
+                }
+            }
+        }
+        let pts: Vec<(Vec<i128>, f64)> = xs.iter().map(|x| (vec![*x as i128], (*x as f64 / scale).exp() * scale)).collect();
+        out.push(Sweep { name: "TaylorExponent", op: CustomOperation::new(TaylorExponent { taylor_terms: 5, fixed_precision_points: p }),
+            st_unsigned: false, points: pts, precision_units: scale, params: format!("terms=5,points={}", p), with_initial: false });
     }
     // sigmoid / gelu on the clipped range and beyond (flat sides)
     for p in [10u64, 8, 12] {
